@@ -9,6 +9,7 @@ package main
 // diagnostics, and whether an error-free input also evaluates / decodes without a panic.
 
 import (
+	"regexp"
 	"fmt"
 	"strings"
 	"time"
@@ -104,7 +105,12 @@ func evalBody(b hcl.Body) string {
 	})
 }
 
+// a number with an exponent of five or more digits is parsed but not evaluated: rendering it as decimal text
+// (template interpolation, conversion to string) is not endless, but takes minutes and gigabytes - outside the property
+var c17HugeExp = regexp.MustCompile(`[0-9.][eE][+-]?[0-9]{5,}`)
+
 func c17Run(mode string, src []byte) string {
+	noEval := c17HugeExp.Match(src)
 	return guardT(4*time.Second, func() string {
 		start := hcl.Pos{Line: 1, Column: 1, Byte: 0}
 		switch mode {
@@ -115,7 +121,7 @@ func c17Run(mode string, src []byte) string {
 			tree, ev := "-", "skip"
 			if f != nil && f.Body != nil {
 				tree = treeOf(f.Body.(*hclsyntax.Body))
-				if errs == 0 {
+				if errs == 0 && !noEval {
 					ev = evalBody(f.Body)
 					if ev == "ok" {
 						ev = guard(func() string {
@@ -134,7 +140,7 @@ func c17Run(mode string, src []byte) string {
 			tree, ev := "-", "skip"
 			if e != nil {
 				tree = treeOf(e)
-				if errs == 0 {
+				if errs == 0 && !noEval {
 					ev = guard(func() string { e.Value(nil); e.Value(&hcl.EvalContext{}); e.Variables(); return "ok" })
 				}
 			}
@@ -146,7 +152,7 @@ func c17Run(mode string, src []byte) string {
 			tree, ev := "-", "skip"
 			if e != nil {
 				tree = treeOf(e)
-				if errs == 0 {
+				if errs == 0 && !noEval {
 					ev = guard(func() string { e.Value(nil); e.Variables(); return "ok" })
 				}
 			}
@@ -169,7 +175,7 @@ func c17Run(mode string, src []byte) string {
 			f, diags := hjson.Parse(src, "x")
 			dr, errs := diagRanges(diags)
 			ev := "skip"
-			if f != nil && f.Body != nil && errs == 0 {
+			if f != nil && f.Body != nil && errs == 0 && !noEval {
 				ev = evalBody(f.Body)
 			}
 			return fmt.Sprintf("toks=- tree=- diags=%s errs=%d eval=%s", dr, errs, ev)
@@ -305,7 +311,11 @@ func runC17(c *Ctx) {
 			src = []byte(gen.Pick(r, travs))
 		case k < 15:
 			mode = "json"
-			src = []byte(gen.Pick(r, jsons))
+			if r.Chance(1, 4) {
+				src = []byte(gen.Pick(r, jsons))
+			} else {
+				src = []byte(jsonSrc(r, 1+r.Intn(4)))
+			}
 		case k < 17: // structural soup
 			mode = gen.Pick(r, []string{"cfg", "expr", "tmpl", "json", "trav"})
 			n := 1 + r.Intn(25)
@@ -338,12 +348,67 @@ func runC17(c *Ctx) {
 	}
 }
 
+// jsonSrc: a generated JSON document over the whole JSON grammar: numbers with every part (sign, fraction, exponents
+// up to and beyond what arbitrary-precision floats take), strings with escapes / surrogates / template sequences,
+// repeated keys, odd spacing
+func jsonSrc(r *gen.Rng, d int) string {
+	ws := func() string { return gen.Pick(r, []string{"", "", " ", "\n", "\t", "  ", "\r\n"}) }
+	num := func() string {
+		mant := gen.Pick(r, []string{"0", "1", "9", "12", "-0", "-1", "123456789012345678901234567890", "0.5", "1.25", "-3.000", "0.0000000000000000000000001"})
+		if r.Chance(1, 2) {
+			return mant
+		}
+		e := gen.Pick(r, []string{"e", "E", "e+", "e-", "E-"})
+		return mant + e + gen.Pick(r, []string{"0", "1", "3", "10", "308", "309", "1000", "65536", "1000000000", "2147483646", "2147483647", "2147483648", "4000000000", "4294967296", "99999999999999999999"})
+	}
+	str := func() string {
+		var b strings.Builder
+		b.WriteByte('"')
+		for i := 0; i < r.Intn(4); i++ {
+			b.WriteString(gen.Pick(r, []string{"a", "key", "é", "\\n", "\\\"", "\\\\", "\\/", "\\u0041", "\\u00e9", "\\ud83d\\ude00", "\\ud83d", "\\ude00x", "\\u12", "${x}", "${a.b[0]}", "%{ if c }y%{ endif }", "%{ for v in l }${v}%{ endfor }", "$${lit}", "%%{lit}", "${", "%{", "~}", " ", "\\x", "\t"}))
+		}
+		b.WriteByte('"')
+		return b.String()
+	}
+	var val func(d int) string
+	val = func(d int) string {
+		k := r.Intn(10)
+		if d <= 0 && k >= 6 {
+			k = r.Intn(6)
+		}
+		switch {
+		case k < 2:
+			return num()
+		case k < 4:
+			return str()
+		case k < 5:
+			return gen.Pick(r, []string{"true", "false", "null"})
+		case k < 6:
+			return gen.Pick(r, []string{"01", "1.", ".5", "+1", "1e", "1e+", "-", "tru", "nul", "NaN", "Infinity", "0x10", "'a'", "\"unterminated"})
+		case k < 8:
+			var ps []string
+			for i := 0; i < r.Intn(4); i++ {
+				ps = append(ps, ws()+val(d-1)+ws())
+			}
+			return "[" + strings.Join(ps, ",") + gen.Pick(r, []string{"", "", "", ","}) + "]"
+		default:
+			var ps []string
+			for i := 0; i < r.Intn(4); i++ {
+				key := gen.Pick(r, []string{`"a"`, `"b"`, `"a"`, `"block"`, `"label"`, `"${k}"`, `""`, str()})
+				ps = append(ps, ws()+key+ws()+":"+ws()+val(d-1)+ws())
+			}
+			return "{" + strings.Join(ps, ",") + "}"
+		}
+	}
+	return ws() + val(d) + ws()
+}
+
 // exprSrc: source text of a generated expression (mostly valid; shared by the C17 and C20 generators)
 func exprSrc(r *gen.Rng, d int) string {
 	ex := func(d int) string { return exprSrc(r, d) }
 
 		if d <= 0 {
-			return gen.Pick(r, []string{"1", "x", "true", "null", "\"s\"", "a.b", "12.5e3", "\"t ${v}\""})
+			return gen.Pick(r, []string{"1", "x", "true", "null", "\"s\"", "a.b", "12.5e3", "\"t ${v}\"", "1e2147483647", "9e2147483646", "3e-4000000000", "1e99999999999999999999", "12345678901234567890123", "9007199254740993", "0.1e-1", "1E+2"})
 		}
 		switch r.Intn(22) {
 		case 12:
